@@ -16,7 +16,7 @@ LEVEL = "exploration"
 def run(ck):
     st, ill = sc.run_stack_mc(ck)
     ck.sample({"well_kinded_stack": [l["k"] for l in st[len(st) // 2]["layers"]], "ill_kinded": {"rule": ill[0]["rule"], "stack": [l["k"] for l in ill[0]["layers"]]}})
-    sc.run_stacks(ck, st, only="c13")
+    sc.run_stacks(ck, st, only="c13", second_flavour="rel")      # assertion-enabled sanitised build AND the NDEBUG build
     sc.run_ill(ck, ill)
     ck.cov["evaluations"] = len(st) + len(ill)
     ck.cov["distinct_nontrivial"] = len({json_key(c) for c in st if len(c["layers"]) >= 2})
